@@ -261,9 +261,9 @@ def lr_verdict(desc):
 
 
 SUBS = [
-    Sub("aero_mirror", aero_cfg(), aero_verdict, quick=240, thorough=6000),
-    Sub("as_symmetry", as_cfg(), as_verdict, quick=96, thorough=2500),
-    Sub("left_right_geometry", lr_cfg(), lr_verdict, quick=160, thorough=4000),
+    Sub("aero_mirror", aero_cfg(), aero_verdict, quick=640, thorough=12000),
+    Sub("as_symmetry", as_cfg(), as_verdict, quick=200, thorough=4000),
+    Sub("left_right_geometry", lr_cfg(), lr_verdict, quick=400, thorough=8000),
     Sub("right_half_dv_probe", lr_cfg(mode="probe_dv"), lr_verdict, quick=32, thorough=300, max_shards=4),
     Sub("right_half_rotate_probe", lr_cfg(mode="probe_rotate"), lr_verdict, quick=16, thorough=150, max_shards=4),
 ]
